@@ -193,6 +193,28 @@ def search_two_routes():
     bad = sorted((f["lineno"], f["code"].name) for f in res if f.get("code") is not None and f["code"].name in ("unsupported_operation", "incompatible_return_value", "incompatible_call"))
     if bad:
         return f"async def with a nested sync generator helper: awaiting it is diagnosed {bad} (line 3: runtime-object route, line 9: def-statement route); it is a coroutine function on both"
+    # collections.abc.Callable in quoted and plain annotations, on both routes; methods of nested classes (unannotated self)
+    name = "verif_c13_lib_cb"
+    lib = ("from collections.abc import Callable\nimport typing\n"
+           "def q(cb: 'Callable[[int], str]') -> None: ...\ndef p(cb: Callable[[int], str]) -> None: ...\ndef tq(cb: 'typing.Callable[[int], str]') -> None: ...\n"
+           "def good(x: int) -> str:\n    return ''\ndef bad(x: str, y: int) -> str:\n    return ''\n"
+           "class Outer:\n    class Inner:\n        def meth(self, x: int) -> int:\n            return x\n    def meth(self, x: int) -> int:\n        return x\n")
+    _install_module(name, lib)
+    try:
+        code = (f"from {name} import q, p, tq, good, bad, Outer\nfrom collections.abc import Callable\n"
+                "def use() -> None:\n    q(good)\n    q(bad)\n    p(good)\n    p(bad)\n    tq(good)\n    tq(bad)\n"
+                "def outer() -> None:\n    def nq(cb: 'Callable[[int], str]') -> None: ...\n    def np(cb: Callable[[int], str]) -> None: ...\n"
+                "    nq(good)\n    nq(bad)\n    np(good)\n    np(bad)\n"
+                "def methods() -> None:\n    Outer.Inner.meth(Outer.Inner(), 1)\n    Outer.Inner.meth('not an Inner', 1)\n    Outer.meth(Outer(), 1)\n    Outer.meth('not an Outer', 1)\n")
+        res = check_code(code)
+    finally:
+        sys.modules.pop(name, None)
+    flagged = {f["lineno"] for f in res if f.get("code") is not None and f["code"].name in ("incompatible_call", "incompatible_argument")}
+    other = sorted((f["lineno"], f["code"].name) for f in res if f.get("code") is not None and f["code"].name in ("invalid_annotation", "undefined_name"))
+    want = {5, 7, 9, 14, 16, 19, 21}
+    if flagged != want or other:
+        return (f"collections.abc.Callable[[int], str] quoted / plain / typing.Callable on the runtime-object route (lines 4-9) and the def-statement route (13-16), and methods of a nested class (18-21): "
+                f"flagged lines {sorted(flagged)}, expected {sorted(want)} (the call with the wrong callback / the wrong self, each time); other diagnostics {other}")
     return None
 
 
